@@ -272,6 +272,9 @@ GROUPS = {
             # the step the scope-state end-to-end chain assumed (`mk`), now of the regenerated constructor
             ("ssinit_closes_chain", ["gSSPre", "gSSBody", "gSSPost", "gSSInit"], "ClosesChain gSSInit",
              "exact closesChain_of_builds ssinit_builds"),
+            # C01's replacement clause of the regenerated constructor: the entry of a class is the LAST instance of it supplied
+            ("ssinit_last_wins", ["gSSPre", "gSSBody", "gSSPost", "gSSInit"], "LastWins gSSInit",
+             "exact lastWins_of_builds ssinit_builds"),
         ],
     },
     "spawn": {
